@@ -282,36 +282,36 @@ fn annotations_and_dimensions(thorough: bool) -> Vec<Case> {
             continue;
         }
         out.push(cp("annotated let", format!("let aq: {te} = 3 * ({ve})"), &["aq".into(), "aq * 2".into()]));
-        out.push(cp("annotated function", format!("fn ft(x: {te}) -> {te} = x"), &[format!("ft(3 * ({ve}))"), "ft(2)".into(), "ft(2 m)".into()]));
-        out.push(cp("dimension definition", format!("dimension Dq = {te}"), &[format!("let dq: Dq = 3 * ({ve})\ndq"), format!("fn fd(x: Dq) -> {te} = x\nfd(3 * ({ve}))")]));
+        out.push(cp("annotated function", format!("fn fnt_a(x: {te}) -> {te} = x"), &[format!("fnt_a(3 * ({ve}))"), "fnt_a(2)".into(), "fnt_a(2 m)".into()]));
+        out.push(cp("dimension definition", format!("dimension Dq = {te}"), &[format!("let dq: Dq = 3 * ({ve})\ndq"), format!("fn fnd_a(x: Dq) -> {te} = x\nfd(3 * ({ve}))")]));
         out.push(cp("derived unit with annotation", format!("unit uq: {te} = 3 * ({ve})"), &["2 uq".into(), format!("2 uq -> ({ve})")]));
         out.push(cp("base unit with annotation", format!("unit ub: {te}"), &["2 ub".into(), format!("2 ub + 3 * ({ve})")]));
         out.push(cp("struct definition", format!("struct Sq {{ fa: {te}, fb: Bool }}"), &[format!("Sq {{ fa: 3 * ({ve}), fb: true }}"), format!("Sq {{ fa: 3 * ({ve}), fb: true }}.fa")]));
         out.push(cp("list annotation", format!("let lq: List<{te}> = [3 * ({ve})]"), &["lq".into(), "head(lq)".into()]));
-        out.push(cp("function type annotation", format!("fn fq(g: Fn[({te}) -> {te}], x: {te}) -> {te} = g(x)"), &[format!("fq(idf, 3 * ({ve}))")]));
+        out.push(cp("function type annotation", format!("fn fnq_a(g: Fn[({te}) -> {te}], x: {te}) -> {te} = g(x)"), &[format!("fnq_a(idf, 3 * ({ve}))")]));
     }
     // generic annotations
     let gtes = type_exprs(&["A", "B", "Length"], false);
     for (te, _) in &gtes {
-        out.push(cp("generic annotated function", format!("fn fg<A: Dim, B: Dim>(x: A, y: B, z: {te}) -> {te} = z"), &[]));
-        out.push(cp("generic annotated function", format!("fn fg<A: Dim, B: Dim>(x: {te}) -> {te} * A = x * x^0"), &[]));
+        out.push(cp("generic annotated function", format!("fn fng_a<A: Dim, B: Dim>(x: A, y: B, z: {te}) -> {te} = z"), &[]));
+        out.push(cp("generic annotated function", format!("fn fng_a<A: Dim, B: Dim>(x: {te}) -> {te} * A = x * x^0"), &[]));
         out.push(cp("generic struct", format!("struct Gq<A: Dim, B: Dim> {{ ga: A, gb: B, gc: {te} }}"), &[]));
     }
     for (decl, probes) in [
-        ("fn fg<A: Dim>(x: A) -> A^2 = x * x", vec!["fg(2 m)", "fg(3)"]),
-        ("fn fg<A: Dim>(x: A^(1/3)) -> A = x^3", vec!["fg(2 m)", "fg(3)"]),
-        ("fn fg<A: Dim, B: Dim>(x: A^(1/3) * B^(2/5), y: B^(1/5)) -> A = x^3 / y^6", vec!["fg(2 m, 3 s)", "fg(3, 1)"]),
-        ("fn fg<A: Dim>(x: A, y: A) -> Bool = x < y", vec!["fg(2 m, 3 cm)"]),
-        ("fn fg<A>(x: A, y: A) -> Bool = x == y", vec!["fg(2 m, 3 cm)", "fg(\"a\", \"a\")", "fg(true, false)"]),
-        ("fn fg<A>(x: A) -> List<A> = [x, x]", vec!["fg(2 m)", "fg(\"a\")", "fg([1])"]),
-        ("fn fg<A, B>(f: Fn[(A) -> B], x: A) -> B = f(x)", vec!["fg(sqrt, 4 m^2)", "fg(str_length, \"abc\")"]),
-        ("fn fg<A: Dim>(xs: List<A>) -> A = head(xs) + head(tail(xs))", vec!["fg([1 m, 2 cm])"]),
-        ("fn fg() -> Scalar = 2", vec!["fg()", "fg() + 1"]),
-        ("fn fg() = 2 m", vec!["fg()", "fg() + 1 cm"]),
-        ("fn fg(x: Scalar) -> String = \"{x}\"", vec!["fg(2)"]),
-        ("fn fg(d: DateTime) -> DateTime = d + 1 day", vec!["fg(dt1)"]),
-        ("fn fg(p: Pt2) -> Scalar = p.px + p.py", vec!["fg(pt)"]),
-        ("fn fg(p: Pair) -> Velocity = p.p1 / p.p2", vec!["fg(pair1)"]),
+        ("fn fng_a<A: Dim>(x: A) -> A^2 = x * x", vec!["fng_a(2 m)", "fng_a(3)"]),
+        ("fn fng_a<A: Dim>(x: A^(1/3)) -> A = x^3", vec!["fng_a(2 m)", "fng_a(3)"]),
+        ("fn fng_a<A: Dim, B: Dim>(x: A^(1/3) * B^(2/5), y: B^(1/5)) -> A = x^3 / y^6", vec!["fng_a(2 m, 3 s)", "fng_a(3, 1)"]),
+        ("fn fng_a<A: Dim>(x: A, y: A) -> Bool = x < y", vec!["fng_a(2 m, 3 cm)"]),
+        ("fn fng_a<A>(x: A, y: A) -> Bool = x == y", vec!["fng_a(2 m, 3 cm)", "fng_a(\"a\", \"a\")", "fng_a(true, false)"]),
+        ("fn fng_a<A>(x: A) -> List<A> = [x, x]", vec!["fng_a(2 m)", "fng_a(\"a\")", "fng_a([1])"]),
+        ("fn fng_a<A, B>(f: Fn[(A) -> B], x: A) -> B = f(x)", vec!["fng_a(sqrt, 4 m^2)", "fng_a(str_length, \"abc\")"]),
+        ("fn fng_a<A: Dim>(xs: List<A>) -> A = head(xs) + head(tail(xs))", vec!["fng_a([1 m, 2 cm])"]),
+        ("fn fng_a() -> Scalar = 2", vec!["fng_a()", "fng_a() + 1"]),
+        ("fn fng_a() = 2 m", vec!["fng_a()", "fng_a() + 1 cm"]),
+        ("fn fng_a(x: Scalar) -> String = \"{x}\"", vec!["fng_a(2)"]),
+        ("fn fng_a(d: DateTime) -> DateTime = d + 1 day", vec!["fng_a(dt1)"]),
+        ("fn fng_a(p: Pt2) -> Scalar = p.px + p.py", vec!["fng_a(pt)"]),
+        ("fn fng_a(p: Pair) -> Velocity = p.p1 / p.p2", vec!["fng_a(pair1)"]),
         ("struct Gq<D: Dim> { gx: D, gy: D }", vec!["Gq { gx: 1 m, gy: 2 cm }", "Gq { gx: 1 m, gy: 2 cm }.gy", "Gq { gx: 1, gy: 2 }.gx", "Gq { gx: 1 m, gy: 2 s }"]),
         ("struct Gq<D: Dim, E: Dim> { gx: D, gy: D / E }", vec!["Gq { gx: 1 m, gy: 2 m / s }.gy", "Gq { gx: 1 m, gy: 2 s }"]),
         ("struct Gq<T> { gx: T, gy: List<T> }", vec!["Gq { gx: 1 m, gy: [2 cm] }.gy", "Gq { gx: \"a\", gy: [\"b\"] }.gy", "Gq { gx: 1, gy: [true] }"]),
@@ -335,42 +335,42 @@ fn inferred_functions(thorough: bool) -> Vec<Case> {
     // exponent denominators up to 15 in inferred signatures
     let exps = ["2", "3", "(-1)", "(1/2)", "(1/3)", "(1/5)", "(2/3)", "(3/5)", "(1/15)", "(-4/3)", "10", "12"];
     for a in exps {
-        out.push(cp("inferred signature", format!("fn fi(x) = x^{a}"), &["fi(2 m)".into(), "fi(3)".into(), "fi(2 m^15)".into()]));
+        out.push(cp("inferred signature", format!("fn fni_a(x) = x^{a}"), &["fni_a(2 m)".into(), "fni_a(3)".into(), "fni_a(2 m^15)".into()]));
         for b in exps {
-            out.push(cp("inferred signature", format!("fn fi(x) = x^{a} * x^{b}"), &["fi(2 m)".into(), "fi(3)".into()]));
-            out.push(cp("inferred signature", format!("fn fi(x, y) = x^{a} * y^{b}"), &["fi(2 m, 3 s)".into(), "fi(3, 2)".into()]));
-            out.push(cp("inferred signature", format!("fn fi(x, y) = x^{a} / y^{b} + x^{a} / y^{b}"), &["fi(2 m, 3 s)".into()]));
+            out.push(cp("inferred signature", format!("fn fni_a(x) = x^{a} * x^{b}"), &["fni_a(2 m)".into(), "fni_a(3)".into()]));
+            out.push(cp("inferred signature", format!("fn fni_a(x, y) = x^{a} * y^{b}"), &["fni_a(2 m, 3 s)".into(), "fni_a(3, 2)".into()]));
+            out.push(cp("inferred signature", format!("fn fni_a(x, y) = x^{a} / y^{b} + x^{a} / y^{b}"), &["fni_a(2 m, 3 s)".into()]));
             if thorough {
                 for c2 in ["(1/2)", "(1/3)", "(-1/7)"] {
-                    out.push(cp("inferred signature", format!("fn fi(x, y, z) = x^{a} * y^{b} * z^{c2}"), &["fi(2 m, 3 s, 4 kg)".into()]));
-                    out.push(cp("inferred signature", format!("fn fi(x, y) = (x^{a} * y^{b})^{c2}"), &["fi(2 m, 3 s)".into()]));
+                    out.push(cp("inferred signature", format!("fn fni_a(x, y, z) = x^{a} * y^{b} * z^{c2}"), &["fni_a(2 m, 3 s, 4 kg)".into()]));
+                    out.push(cp("inferred signature", format!("fn fni_a(x, y) = (x^{a} * y^{b})^{c2}"), &["fni_a(2 m, 3 s)".into()]));
                 }
             }
         }
     }
     // bodies of other kinds
     for (decl, probes) in [
-        ("fn fi(x) = x", vec!["fi(2 m)", "fi(\"a\")", "fi([1])", "fi(true)"]),
-        ("fn fi(x) = [x]", vec!["fi(2 m)", "fi(\"a\")"]),
-        ("fn fi(x, y) = if x then y else y", vec!["fi(true, 2 m)", "fi(false, \"a\")"]),
-        ("fn fi(x) = \"{x}\"", vec!["fi(2 m)", "fi(true)"]),
-        ("fn fi(x) = head(x)", vec!["fi([2 m])"]),
-        ("fn fi(x) = x.px", vec!["fi(pt)"]),
-        ("fn fi(f, x) = f(x)", vec!["fi(sqrt, 4)", "fi(idf, true)"]),
-        ("fn fi(f, x) = f(f(x))", vec!["fi(sqr, 4)", "fi(idf, true)"]),
-        ("fn fi(x) = x + 1", vec!["fi(2)"]),
-        ("fn fi(x) = x + 1 m", vec!["fi(2 cm)"]),
-        ("fn fi(x) = x < 1 s", vec!["fi(2 ms)"]),
-        ("fn fi(x) = sqrt(x)", vec!["fi(4 m^2)"]),
-        ("fn fi(x) = sqrt(x) * cbrt(x)", vec!["fi(4 m^6)"]),
-        ("fn fi(x, y) = hypot2(x, y) / x", vec!["fi(3 m, 4 m)"]),
-        ("fn fi(x) = mean([x, 2 x])", vec!["fi(4 m)"]),
-        ("fn fi(x) = map(sqr, x)", vec!["fi([1 m, 2 m])"]),
-        ("fn fi(x) = 0", vec!["fi(1)", "fi(1) + 2 m"]),
-        ("fn fi(x) = 0 + x * 0", vec!["fi(1 m)"]),
-        ("fn fi(x) = dt1 + x", vec!["fi(2 days)"]),
-        ("fn fi(x) = x -> cm", vec!["fi(2 m)"]),
-        ("fn fi(x) = -x!", vec!["fi(3)"]),
+        ("fn fni_a(x) = x", vec!["fni_a(2 m)", "fni_a(\"a\")", "fni_a([1])", "fni_a(true)"]),
+        ("fn fni_a(x) = [x]", vec!["fni_a(2 m)", "fni_a(\"a\")"]),
+        ("fn fni_a(x, y) = if x then y else y", vec!["fni_a(true, 2 m)", "fni_a(false, \"a\")"]),
+        ("fn fni_a(x) = \"{x}\"", vec!["fni_a(2 m)", "fni_a(true)"]),
+        ("fn fni_a(x) = head(x)", vec!["fni_a([2 m])"]),
+        ("fn fni_a(x) = x.px", vec!["fni_a(pt)"]),
+        ("fn fni_a(f, x) = f(x)", vec!["fni_a(sqrt, 4)", "fni_a(idf, true)"]),
+        ("fn fni_a(f, x) = f(f(x))", vec!["fni_a(sqr, 4)", "fni_a(idf, true)"]),
+        ("fn fni_a(x) = x + 1", vec!["fni_a(2)"]),
+        ("fn fni_a(x) = x + 1 m", vec!["fni_a(2 cm)"]),
+        ("fn fni_a(x) = x < 1 s", vec!["fni_a(2 ms)"]),
+        ("fn fni_a(x) = sqrt(x)", vec!["fni_a(4 m^2)"]),
+        ("fn fni_a(x) = sqrt(x) * cbrt(x)", vec!["fni_a(4 m^6)"]),
+        ("fn fni_a(x, y) = hypot2(x, y) / x", vec!["fni_a(3 m, 4 m)"]),
+        ("fn fni_a(x) = mean([x, 2 x])", vec!["fni_a(4 m)"]),
+        ("fn fni_a(x) = map(sqr, x)", vec!["fni_a([1 m, 2 m])"]),
+        ("fn fni_a(x) = 0", vec!["fni_a(1)", "fni_a(1) + 2 m"]),
+        ("fn fni_a(x) = 0 + x * 0", vec!["fni_a(1 m)"]),
+        ("fn fni_a(x) = dt1 + x", vec!["fni_a(2 days)"]),
+        ("fn fni_a(x) = x -> cm", vec!["fni_a(2 m)"]),
+        ("fn fni_a(x) = -x!", vec!["fni_a(3)"]),
     ] {
         out.push(cp("inferred signature", decl, &probes.iter().map(|s| s.to_string()).collect::<Vec<_>>()));
     }
@@ -384,7 +384,7 @@ fn inferred_functions(thorough: bool) -> Vec<Case> {
             }
             let last = sel.last().unwrap().split([' ', ':']).next().unwrap();
             for layout in [0, 1] {
-                let mut s = format!("fn fw(x) = {last} * x");
+                let mut s = format!("fn fnw_a(x) = {last} * x");
                 for (i, l) in sel.iter().enumerate() {
                     let kw = if i == 0 { "where" } else { "and" };
                     if layout == 0 {
@@ -393,18 +393,18 @@ fn inferred_functions(thorough: bool) -> Vec<Case> {
                         s.push_str(&format!(" {kw} {l}"));
                     }
                 }
-                out.push(cp("where clause", s, &["fw(2 m)".into(), "fw(3)".into(), "fw(-1 m)".into()]));
+                out.push(cp("where clause", s, &["fnw_a(2 m)".into(), "fnw_a(3)".into(), "fnw_a(-1 m)".into()]));
             }
         }
     }
     for (decl, probes) in [
-        ("fn fw<A: Dim>(x: A) -> A^2 = la * lb\n  where la: A = x + x\n    and lb: A = la - x", vec!["fw(2 m)"]),
-        ("fn fw(x: Length) -> Length = la -> cm\n  where la = x + 1 m", vec!["fw(2 m)"]),
-        ("fn fw(x) = la where la = if x then 1 else 2", vec!["fw(true)"]),
-        ("fn fw(x) = la.px where la = Pt2 { px: x, py: x }", vec!["fw(3)"]),
-        ("fn fw(x) = la(x) where la = sqrt", vec!["fw(4)"]),
-        ("fn fw(x) = \"{la}\" where la = \"in {x}\"", vec!["fw(4)"]),
-        ("fn fw(x) = head(la) where la = [x, x]", vec!["fw(4 m)"]),
+        ("fn fnw_a<A: Dim>(x: A) -> A^2 = la * lb\n  where la: A = x + x\n    and lb: A = la - x", vec!["fnw_a(2 m)"]),
+        ("fn fnw_a(x: Length) -> Length = la -> cm\n  where la = x + 1 m", vec!["fnw_a(2 m)"]),
+        ("fn fnw_a(x) = la where la = if x then 1 else 2", vec!["fnw_a(true)"]),
+        ("fn fnw_a(x) = la.px where la = Pt2 { px: x, py: x }", vec!["fnw_a(3)"]),
+        ("fn fnw_a(x) = la(x) where la = sqrt", vec!["fnw_a(4)"]),
+        ("fn fnw_a(x) = \"{la}\" where la = \"in {x}\"", vec!["fnw_a(4)"]),
+        ("fn fnw_a(x) = head(la) where la = [x, x]", vec!["fnw_a(4 m)"]),
     ] {
         out.push(cp("where clause", decl, &probes.iter().map(|s| s.to_string()).collect::<Vec<_>>()));
     }
@@ -449,7 +449,7 @@ fn decorated_definitions(thorough: bool) -> Vec<Case> {
                 out.push(cp("unit decorators", format!("@{d}(\"{s}\")\n@aliases(ua: short)\n@metric_prefixes\n{uf}"), &probes));
             }
             out.push(cp("let decorators", format!("@{d}(\"{s}\")\nlet lv = 2 m"), &["lv".into()]));
-            out.push(cp("fn decorators", format!("@{d}(\"{s}\")\nfn fz(x) = 2 x"), &["fz(2)".into()]));
+            out.push(cp("fn decorators", format!("@{d}(\"{s}\")\nfn fnz_a(x) = 2 x"), &["fnz_a(2)".into()]));
             for d2 in sdec {
                 for s2 in &strs {
                     if thorough || (s.len() + s2.len()) % 3 == 0 {
@@ -460,8 +460,8 @@ fn decorated_definitions(thorough: bool) -> Vec<Case> {
         }
     }
     for s in &strs {
-        out.push(cp("fn decorators", format!("@example(\"fz(2)\", \"{s}\")\nfn fz(x) = 2 x"), &["fz(2)".into()]));
-        out.push(cp("fn decorators", format!("@example(\"{s}\")\nfn fz(x) = 2 x"), &["fz(2)".into()]));
+        out.push(cp("fn decorators", format!("@example(\"fnz_a(2)\", \"{s}\")\nfn fnz_a(x) = 2 x"), &["fnz_a(2)".into()]));
+        out.push(cp("fn decorators", format!("@example(\"{s}\")\nfn fnz_a(x) = 2 x"), &["fnz_a(2)".into()]));
     }
     for al in alias_forms {
         if al.is_empty() {
@@ -494,7 +494,7 @@ fn strings(thorough: bool) -> Vec<Case> {
         out.push(c("string", format!("if bt then \"{a}\" else \"\"")));
         out.push(c("string", format!("let sq2 = \"{a}\"\nsq2")));
         out.push(c("string", format!("print(\"{a}\")")));
-        out.push(c("string", format!("fn fs(x) = \"{a}|{{x}}\"\nfs(3)")));
+        out.push(c("string", format!("fn fns_a(x) = \"{a}|{{x}}\"\nfns_a(3)")));
         out.push(c("string", format!("str_append(\"{a}\", \"{a}\")")));
     }
     out
@@ -523,7 +523,7 @@ fn temperature_and_dates() -> Vec<Case> {
         for ctx in [
             "({T}) + 1 K", "1 K + ({T})", "({T}) * 2", "2 * ({T})", "({T}) / 2", "2 / ({T})", "-({T})", "({T})^2", "2^({T})", "({T})!", "sq({T})", "[{T}]", "[{T}, {T}]", "if bt then ({T}) else ({T})", "({T}) -> K", "({T}) -> mK",
             "({T}) + 1", "({T}) - 1", "1 - ({T})", "({T}) < 300 K", "({T}) < 300", "300 > ({T})", "({T}) |> celsius", "({T}) -> °C", "({T}) -> °F", "celsius({T})", "from_celsius({T})", "\"{{T}}\"", "({T}) per 2", "idf({T})", "({T}) K", "({T}) == ({T})",
-            "let tq = {T}\ntq", "fn ftq(x) = {T}\nftq(1)",
+            "let tq = {T}\ntq", "fn fntq_a(x) = {T}\nfntq_a(1)",
         ] {
             out.push(c("temperature sugar in context", ctx.replace("{T}", t)));
         }
@@ -639,10 +639,221 @@ fn same_outcome(a: &RunResult, b: &RunResult) -> bool {
     a.fingerprint() == b.fingerprint() && a.last_type == b.last_type && a.printed == b.printed
 }
 
-pub fn classify(code: &str, echo: &str, msg: &str) -> String {
-    let _ = (code, msg);
-    if echo.contains("forall ") {
-        return "CLASS:echo-forall-annotation".into();
+// --- classification of the recorded findings (narrow, decided from the input and its echo) -------
+
+#[derive(Clone, PartialEq, Debug)]
+enum Sx {
+    Atom(String),
+    List(Vec<Sx>),
+}
+
+fn parse_sx(s: &str) -> Option<Vec<Sx>> {
+    let cs: Vec<char> = s.chars().collect();
+    let mut stack: Vec<Vec<Sx>> = vec![vec![]];
+    let mut i = 0;
+    while i < cs.len() {
+        let ch = cs[i];
+        if ch.is_whitespace() {
+            i += 1;
+        } else if ch == '(' {
+            stack.push(vec![]);
+            i += 1;
+        } else if ch == ')' {
+            let l = stack.pop()?;
+            stack.last_mut()?.push(Sx::List(l));
+            i += 1;
+        } else if ch == '"' {
+            let mut j = i + 1;
+            while j < cs.len() && cs[j] != '"' {
+                if cs[j] == '\\' {
+                    j += 1;
+                }
+                j += 1;
+            }
+            stack.last_mut()?.push(Sx::Atom(cs[i..(j + 1).min(cs.len())].iter().collect()));
+            i = j + 1;
+        } else {
+            let mut j = i;
+            while j < cs.len() && !cs[j].is_whitespace() && cs[j] != '(' && cs[j] != ')' {
+                j += 1;
+            }
+            stack.last_mut()?.push(Sx::Atom(cs[i..j].iter().collect()));
+            i = j;
+        }
+    }
+    if stack.len() != 1 {
+        return None;
+    }
+    stack.pop()
+}
+
+/// unit identifiers resolved, annotations and decorators dropped, nested sums / products flattened
+fn normal_sx(ctx: &Context, x: &Sx, flatten: bool) -> Sx {
+    match x {
+        Sx::Atom(a) => Sx::Atom(a.clone()),
+        Sx::List(l) => {
+            let head = match l.first() {
+                Some(Sx::Atom(h)) => h.as_str(),
+                _ => "",
+            };
+            if head == "id" && l.len() == 2 {
+                if let Sx::Atom(name) = &l[1] {
+                    if let numbat::verif::Resolved::Unit { prefix_kind, prefix_exponent, full_name, .. } = ctx.verif_resolve(name) {
+                        return Sx::Atom(format!("unit:{prefix_kind}{prefix_exponent}:{full_name}"));
+                    }
+                }
+            }
+            if head == "let" && l.len() == 5 {
+                return Sx::List(vec![l[0].clone(), l[1].clone(), normal_sx(ctx, &l[3], flatten)]);
+            }
+            let kids: Vec<Sx> = l.iter().map(|k| normal_sx(ctx, k, flatten)).collect();
+            if flatten && (head == "+" || head == "*") && kids.len() == 3 {
+                let mut out = vec![kids[0].clone()];
+                for k in &kids[1..] {
+                    match k {
+                        Sx::List(kl) if kl.first() == Some(&kids[0]) => out.extend(kl[1..].iter().cloned()),
+                        other => out.push(other.clone()),
+                    }
+                }
+                return Sx::List(out);
+            }
+            Sx::List(kids)
+        }
+    }
+}
+
+fn same_up_to_regrouping(ctx: &Context, code: &str, echo: &str) -> bool {
+    let (Ok(a), Ok(b)) = (numbat::verif::parse_sexpr(code), numbat::verif::parse_sexpr(echo)) else {
+        return false;
+    };
+    let (Some(a), Some(b)) = (parse_sx(&a), parse_sx(&b)) else {
+        return false;
+    };
+    let strict = |v: &Vec<Sx>| v.iter().map(|x| normal_sx(ctx, x, false)).collect::<Vec<_>>();
+    let loose = |v: &Vec<Sx>| v.iter().map(|x| normal_sx(ctx, x, true)).collect::<Vec<_>>();
+    strict(&a) != strict(&b) && loose(&a) == loose(&b)
+}
+
+fn ascii_exponents(s: &str) -> String {
+    let sup = |c: char| "⁰¹²³⁴⁵⁶⁷⁸⁹".chars().position(|d| d == c);
+    let cs: Vec<char> = s.chars().collect();
+    let mut out = String::new();
+    let mut i = 0;
+    while i < cs.len() {
+        let neg = cs[i] == '⁻' && i + 1 < cs.len() && sup(cs[i + 1]).is_some();
+        if neg || sup(cs[i]).is_some() {
+            let mut j = if neg { i + 1 } else { i };
+            let mut digits = String::new();
+            while j < cs.len() && sup(cs[j]).is_some() {
+                digits.push(char::from(b'0' + sup(cs[j]).unwrap() as u8));
+                j += 1;
+            }
+            if neg {
+                out.push_str(&format!("^(-{digits})"));
+            } else {
+                out.push_str(&format!("^{digits}"));
+            }
+            i = j;
+        } else {
+            out.push(cs[i]);
+            i += 1;
+        }
+    }
+    out
+}
+
+/// `-( … °C)` / `-( … °F)`: the negation of a temperature written with the sugar
+fn has_negated_temperature_sugar(echo: &str) -> bool {
+    let cs: Vec<char> = echo.chars().collect();
+    for i in 0..cs.len().saturating_sub(1) {
+        if cs[i] == '-' && cs[i + 1] == '(' {
+            let mut depth = 0;
+            for j in (i + 1)..cs.len() {
+                match cs[j] {
+                    '(' => depth += 1,
+                    ')' => {
+                        depth -= 1;
+                        if depth == 0 {
+                            let inner: String = cs[i + 2..j].iter().collect();
+                            if inner.ends_with(" °C") || inner.ends_with(" °F") {
+                                return true;
+                            }
+                            break;
+                        }
+                    }
+                    _ => {}
+                }
+            }
+        }
+    }
+    false
+}
+
+#[derive(Clone, Copy, PartialEq)]
+pub enum Fail {
+    Rejected,
+    Type,
+    Value,
+    Fixpoint,
+    Probe,
+}
+
+pub fn classify(ctx: &Context, code: &str, echo: &str, echo2: Option<&str>, kind: Fail) -> String {
+    let c = |s: &str| format!("CLASS:{s}");
+    if kind == Fail::Rejected {
+        if echo.contains("forall ") {
+            return c("echo-forall-annotation");
+        }
+        // `let x: Energy or Torque = …`: the readable type lists every matching dimension name
+        let ambiguous = echo.lines().any(|l| {
+            let Some(p) = l.find(" or ") else { return false };
+            let before = &l[..p];
+            let after = &l[p + 4..];
+            before.contains(": ") && before.rsplit(": ").next().map(|t| t.chars().all(|ch| ch.is_alphanumeric() || ch == '_')).unwrap_or(false) && after.chars().next().map(|ch| ch.is_uppercase()).unwrap_or(false)
+        });
+        if ambiguous {
+            return c("echo-ambiguous-dimension-name");
+        }
+        // `unit foo` (no annotation, no definition) is echoed with the dimension it implicitly creates
+        for l in code.lines() {
+            if let Some(name) = l.strip_prefix("unit ") {
+                if !name.contains(':') && !name.contains('=') {
+                    let name = name.trim();
+                    let mut dim: Vec<char> = name.chars().collect();
+                    if let Some(f) = dim.first_mut() {
+                        *f = f.to_ascii_uppercase();
+                    }
+                    let dim: String = dim.into_iter().collect();
+                    if echo.lines().any(|e| e == format!("unit {name}: {dim}")) {
+                        return c("echo-implicit-base-dimension");
+                    }
+                }
+            }
+        }
+        // `struct S<D: Dim> { … }` is echoed without its type parameters
+        for l in code.lines() {
+            if let Some(rest) = l.strip_prefix("struct ") {
+                if let Some(p) = rest.find('<') {
+                    let name = &rest[..p];
+                    if rest[..rest.find('{').unwrap_or(rest.len())].contains('<') && echo.lines().any(|e| e.starts_with(&format!("struct {name} {{"))) {
+                        return c("echo-generic-struct-parameters");
+                    }
+                }
+            }
+        }
+    }
+    if (kind == Fail::Value || kind == Fail::Rejected || kind == Fail::Type) && has_negated_temperature_sugar(echo) {
+        return c("echo-negated-temperature-sugar");
+    }
+    if kind == Fail::Fixpoint {
+        if let Some(e2) = echo2 {
+            if ascii_exponents(echo) == ascii_exponents(e2) && echo != e2 {
+                return c("echo-inferred-exponent-spelling");
+            }
+        }
+    }
+    if (kind == Fail::Value || kind == Fail::Fixpoint) && same_up_to_regrouping(ctx, code, echo) {
+        return c("echo-regroups-sum-or-product");
     }
     String::new()
 }
@@ -658,19 +869,19 @@ pub fn judge(base: &Context, code: &str, probes: &[String]) -> Result<&'static s
     let mut c2 = base.clone();
     let r2 = run(&mut c2, &p);
     let pshow = p.replace('\n', "⏎");
-    let fail = |m: String| -> Result<&'static str, String> { Err(format!("{}{}", classify(code, &p, &m), m)) };
+    let fail = |kind: Fail, p2: Option<&str>, m: String| -> Result<&'static str, String> { Err(format!("{}{}", classify(base, code, &p, p2, kind), m)) };
     if !r2.is_ok() {
-        return fail(format!(" is echoed as `{pshow}`, which is not accepted: {}", r2.err_string().unwrap_or_default().lines().next().unwrap_or("")));
+        return fail(Fail::Rejected, None, format!(" is echoed as `{pshow}`, which is not accepted: {}", r2.err_string().unwrap_or_default().lines().next().unwrap_or("")));
     }
     if r1.last_type != r2.last_type {
-        return fail(format!(" is echoed as `{pshow}`, which has type {:?} instead of {:?}", r2.last_type, r1.last_type));
+        return fail(Fail::Type, None, format!(" is echoed as `{pshow}`, which has type {:?} instead of {:?}", r2.last_type, r1.last_type));
     }
     if !same_outcome(&r1, &r2) {
-        return fail(format!(" is echoed as `{pshow}`, which evaluates to {} instead of {}", show_outcome(&r2), show_outcome(&r1)));
+        return fail(Fail::Value, None, format!(" is echoed as `{pshow}`, which evaluates to {} instead of {}", show_outcome(&r2), show_outcome(&r1)));
     }
     let p2 = r2.statements.join("\n");
     if p2 != p {
-        return fail(format!(" is echoed as `{pshow}`, whose own echo is the different text `{}`", p2.replace('\n', "⏎")));
+        return fail(Fail::Fixpoint, Some(&p2), format!(" is echoed as `{pshow}`, whose own echo is the different text `{}`", p2.replace('\n', "⏎")));
     }
     for pr in probes {
         let mut d1 = c1.clone();
@@ -678,7 +889,7 @@ pub fn judge(base: &Context, code: &str, probes: &[String]) -> Result<&'static s
         let q1 = run(&mut d1, pr);
         let q2 = run(&mut d2, pr);
         if !same_outcome(&q1, &q2) {
-            return fail(format!(" is echoed as `{pshow}`; afterwards `{}` gives {} after the echo but {} after the input", pr.replace('\n', "⏎"), show_outcome(&q2), show_outcome(&q1)));
+            return fail(Fail::Probe, None, format!(" is echoed as `{pshow}`; afterwards `{}` gives {} after the echo but {} after the input", pr.replace('\n', "⏎"), show_outcome(&q2), show_outcome(&q1)));
         }
     }
     Ok("round trip")
